@@ -29,7 +29,7 @@ def rdate(rng):
 def rdt(rng, odd_tz=True):
     tzs = [None, None, datetime.timezone.utc, datetime.timezone(datetime.timedelta(hours=rng.randint(-12, 12), minutes=rng.choice([0, 30, 45])))]
     if odd_tz: tzs.append(datetime.timezone(datetime.timedelta(seconds=rng.randint(-80000, 80000))))
-    return datetime.datetime(rng.randint(1, 9999), rng.randint(1, 12), rng.randint(1, 28), rng.randint(0, 23), rng.randint(0, 59), rng.randint(0, 59), rng.choice([0, 0, 1, 500000, 123456, 999999]), tzinfo=rng.choice(tzs))
+    return datetime.datetime(rng.randint(1, 9999), rng.randint(1, 12), rng.randint(1, 28), rng.randint(0, 23), rng.randint(0, 59), rng.randint(0, 59), rng.choice([0, 0, 1, 500000, 123456, 999999, rng.randrange(1000000), rng.randrange(1000000), rng.randrange(2000)]), tzinfo=rng.choice(tzs))
 def rstr(rng):
     if rng.random() < 0.75: return rng.choice(STRS)
     alpha = "ab \n\n  :-#'\"\\\t\x85  é☺﻿,[]{}&*!|>%@`?0 1.~<=\r"
